@@ -34,14 +34,21 @@ RULE = ('cases = random flat machines (2 of 4 cases: model_attribute state/st/mo
         'unregistered destinations, duplicate states, removal of unknown or auto transitions). '
         'Non-trivial: at least one model is registered and either a helper name clashed with an attribute of the '
         'model, or an operation after the constructor changed the helper table or the answers of get_triggers.')
-ASSUMPTIONS = ['hierarchical reconfiguration histories are checked by a harness oracle against a reference relation '
-               'kept in Python (no Coq model of nested scopes); segment names are unique in the tree',
+ASSUMPTIONS = ['hierarchical reconfiguration histories: the transition relation is a reference kept in Python (no Coq '
+               'model of add/remove_transition in nested scopes); get_triggers of every state after every operation is '
+               'NamingH.get_triggers_h on the event tables of that reference; segment names are unique in the tree',
+               'hierarchical is_state / get_triggers: NamingH.is_helper_h / get_triggers_h (the functions of the C11_hsm_* '
+               'theorems) run on the same machines with numbered states and are compared with machine.is_state / '
+               'get_triggers of the real classes',
                'callbacks are not part of this property: conditions are constants, no callback raises',
                'Enum states behave like string states of the same names in flat machines (the Coq model is by name)',
                'Python attribute lookup (instance dict before class) and functools.partial']
 THEOREMS = ['C11_exactly_one_flat', 'C11_no_overwrite', 'C11_no_overwrite_refuted', 'C11_not_attr',
             'C11_get_triggers', 'C11_get_transitions', 'C11_event_is_trigger_partial',
-            'C11_to_iff_auto_partial', 'C11_envelope_inhabited']
+            'C11_to_iff_auto_partial', 'C11_envelope_inhabited',
+            'C11_hsm_is_leaves', 'C11_hsm_is_ancestors', 'C11_hsm_is_nodes', 'C11_hsm_exactly_one_exclusive',
+            'C11_hsm_model_value', 'C11_hsm_get_triggers_char', 'C11_hsm_get_triggers',
+            'C11_hsm_get_triggers_refuted', 'C11_hsm_to_state']
 
 UNKNOWN = 'zz_unknown'
 STATE_POOL = ['A', 'B', 'C', 'D', 'E', 'st_A', 'state_A', 'A_B']
@@ -561,10 +568,11 @@ def _canon_model(mo):
 
 
 def canon(case, obs):
-    if not isinstance(obs, list) or obs[0] != 1:
+    if not isinstance(obs, list) or obs[0] not in (1, 3):
         return obs
     if case['kind'] == 'hrec':
-        return obs
+        import c11_hrec
+        return c11_hrec.canon(case, obs)
     if case['kind'] != 'flat':
         import c11_hsm
         return c11_hsm.canon(case, obs)
@@ -643,6 +651,8 @@ def classify_known(case, model_obs, impl_obs):
     if case['kind'] == 'hrec':
         # the model's answer is "no clause fails": a disagreement is an oracle failure
         import c11_hrec
+        if model_obs is not None and isinstance(impl_obs, list) and len(impl_obs) == 3 and model_obs[2] != impl_obs[2]:
+            return None        # get_triggers differs from NamingH.get_triggers_h: never a known finding
         return 'KF-C11-1' if c11_hrec.only_kf1_failures(case, impl_obs) else None
     if model_obs is not None:
         return None            # a disagreement between model and implementation is never a known finding
@@ -657,7 +667,7 @@ def classify_known(case, model_obs, impl_obs):
 
 def oracle(case, obs):
     """the clauses of C11 evaluated directly on the implementation's observation (in-envelope cases)"""
-    if not isinstance(obs, list) or obs[0] != 1 or not in_envelope(case):
+    if not isinstance(obs, list) or obs[0] not in (1, 3) or not in_envelope(case):
         return None
     if case['kind'] == 'hrec':
         import c11_hrec
@@ -740,7 +750,7 @@ def oracle(case, obs):
 
 # ------------------------------------------------------------------ statistics
 def nontrivial(case, obs):
-    if not isinstance(obs, list) or obs[0] != 1:
+    if not isinstance(obs, list) or obs[0] not in (1, 3):
         return False
     if case['kind'] == 'hrec':
         import c11_hrec
@@ -770,7 +780,7 @@ def stats(case, obs, dist):
     bump('kind_' + case['kind'])
     if case.get('malformed'):
         bump('malformed')
-    if not isinstance(obs, list) or obs[0] != 1:
+    if not isinstance(obs, list) or obs[0] not in (1, 3):
         bump('constructor_raised' if isinstance(obs, list) and obs[0] == 2 else 'undecodable')
         return
     if case['kind'] == 'hrec':
